@@ -972,3 +972,57 @@ Proof.
   exists I. split; [exact HT|]. intros sh Hsh Hlt inv p Hp Hn.
   rewrite (HK sh Hsh Hlt inv p VNonLit). exact (key_passes_occ_max_union BAlg c thr I g (sh_class sh) inv p Hd Hp Hn).
 Qed.
+
+(** the same from [key_passes_occ] (some count passes), with the laws of the
+    frequency algebra: usable with remove_empty_shapes on (part B) *)
+Section UnionLaws.
+  Variable fa : FreqAlg.
+  Variables (okN : N -> Prop) (okF : F fa -> Prop).
+  Hypothesis L : FreqLaws fa okN okF.
+
+  Theorem key_passes_occ_union c (thr : F fa) I g cls inv p :
+    okF thr -> okN (class_count I cls) ->
+    datatypes_literal g -> p <> r_tau c -> kinds_nested (dir_of inv) (r_tau c) I g cls p ->
+    (key_passes_occ fa c thr I g cls inv p VNonLit <->
+     (inv = true -> r_inverse c = true) /\
+     0 < nonlit_count (dir_of inv) I g cls p /\
+     fle fa thr (ratio fa (nonlit_count (dir_of inv) I g cls p) (class_count I cls)) = true).
+  Proof.
+    intros Ht HN Hd Hp Hn.
+    destruct (nonliteral_max_is_union (dir_of inv) (r_tau c) I g cls p Hd Hp Hn) as [(k0 & Hk0 & E0) Hle].
+    split.
+    - intros (Hi & k & ck & Hv & Hpos & Hf). split; [exact Hi|].
+      assert (Hk : occ (dir_of inv) (r_tau c) I g cls p k ck <= nonlit_count (dir_of inv) I g cls p).
+      { apply Hle. apply (value_class_nonlit _ _ _ Hp). exact Hv. }
+      split; [lia|].
+      apply (fle_trans _ _ _ L thr (ratio fa (occ (dir_of inv) (r_tau c) I g cls p k ck) (class_count I cls)));
+        [exact Ht | apply (ratio_wf _ _ _ L); exact HN | apply (ratio_wf _ _ _ L); exact HN | exact Hf|].
+      apply (ratio_mono _ _ _ L); assumption.
+    - intros (Hi & Hpos & Hf). split; [exact Hi|]. exists k0, CKplus. rewrite E0.
+      split; [|auto]. apply (value_class_nonlit _ _ _ Hp). destruct Hk0 as [->| ->]; reflexivity.
+  Qed.
+End UnionLaws.
+
+(** remove_empty_shapes on, all-classes mode, binary64, thresholds <= 1 *)
+Theorem e2e_keys_iff_union_remove c thr g ns shapes :
+  r_remove_empty c = true -> r_targets c = None -> class_iris_ok c g = true ->
+  wf_frac thr -> fle BAlg thr (fone BAlg) = true -> N.of_nat (List.length g) < 2 ^ 53 ->
+  datatypes_literal g ->
+  run_shapes BAlg c thr g = inl (ns, shapes) ->
+  exists I, track (r_tau c) (mode_of c) (r_cap c) g = inl I /\
+    forall sh, In sh shapes ->
+    forall inv p, p <> r_tau c -> kinds_nested (dir_of inv) (r_tau c) I g (sh_class sh) p ->
+      (In (inv, p, VNonLit) (map (skey (scfg_of c ns)) (sh_stmts sh)) <->
+       (inv = true -> r_inverse c = true) /\
+       0 < nonlit_count (dir_of inv) I g (sh_class sh) p /\
+       fle BAlg thr (ratio BAlg (nonlit_count (dir_of inv) I g (sh_class sh) p) (class_count I (sh_class sh))) = true).
+Proof.
+  intros Hre Hnone Hcls Hw Hle Hg Hd H.
+  destruct (e2e_keys_iff_occ_remove c thr g ns shapes Hre Hcls Hw Hle Hg H) as (I & HT & _ & Hsh & Hall).
+  exists I. split; [exact HT|]. intros sh Hin inv p Hp Hn.
+  assert (Etg : targets_of (pcfg_of c) = []) by (unfold targets_of; cbn [p_targets pcfg_of]; rewrite Hnone; reflexivity).
+  rewrite Etg in Hall. rewrite (Hall (fun t (Ht : In t []) => match Ht with end) sh Hin inv p VNonLit).
+  apply (key_passes_occ_union BAlg okN53 wf_frac BAlg_laws c thr I g (sh_class sh) inv p Hw); [|exact Hd|exact Hp|exact Hn].
+  destruct (Hsh sh Hin) as (En & Hpos & _). rewrite En in Hpos. split; [exact Hpos|].
+  pose proof (class_count_le_graph _ _ _ _ _ (sh_class sh) HT). lia.
+Qed.
